@@ -211,6 +211,9 @@ def differential(tterm, value, ctx, obj):
         kind = "exact-type-differs" if same_val else "value-differs"
     if head == "Tuple" and vc == "ts" and kind == "exact-type-differs":
         return [("tuple-subclass-exact-type", what)], fast, py
+    if head in ("Instance", "InstanceH") and value is None and kind == "py-rejects-fast-accepts":
+        # allow_none=False, but None is an instance of the class (object, NoneType)
+        return [("instance-none-is-instance-of-class", what)], fast, py
     if head == "CoerceH":
         # two root causes: isinstance (C) against `type(value) is` (Python), and the
         # CoercableTypes tuples that list the coercible types as as-is types
@@ -272,7 +275,11 @@ def run_v(env, tt, v):
         expected = first_non_traiterror(fast_alts + slow_alts)
         got, _, _ = V.show_outcome(lambda: p.fast(obj, value), ctx)
         tags.add("compound:" + ("accept" if got.startswith("ok") else "reject"))
-        if got != expected:
+        if got != expected and got == "exc TypeError" and any(a == "Any" for a in alts):
+            hits.append(_hit("compound-any-member-not-callable",
+                             "%s on %s gives %s although the Any member alone accepts: TraitCompound calls the validate "
+                             "attribute of Any, which is None" % (tt, v, got)))
+        elif got != expected:
             hits.append(_hit("compound-not-first-accepting:%s" % head,
                              "%s on %s gives %s; the alternatives alone, in evaluation order, give %s" % (
                                  tt, v, got, fast_alts + slow_alts)))
